@@ -174,7 +174,7 @@ class Fn:
             return INT_TYPES[q]
         s = short(q)
         if self.rep_classes and s == "duration":
-            m = re.match(r"(?:etl::)?(?:chrono::)?duration<([^,<>]+),", q)
+            m = re.match(r"(?:etl::)?(?:chrono::)?duration<([^,<>]+)[,>]", q)      # `duration<short>`: period ratio<1> elided
             if not m or m.group(1).strip() not in INT_TYPES:
                 raise Unsupported("duration type " + q)
             return INT_TYPES[m.group(1).strip()]
@@ -383,6 +383,10 @@ class Fn:
                 if short(qtype(src)) == cls:          # copy/move construction
                     return self.ex(src)
                 e, fv, b = self.ex(src)
+                if self.rep_classes and cls == "duration":
+                    # `duration(Rep2 const& r) : _rep(static_cast<rep>(r))` (duration.hpp; trusted like CSem.mkDur, which is
+                    # this constructor for rep = int_least32_t): the conversion to the constructed type's own rep
+                    return (self.conv(qtype(n), "(if %s then 1 else 0)" % e if b else e), fv, False)
                 ctor = self.reg.get("ctor:" + cls) or ("mkDur" if CLASSES[cls] == "int" else None)
                 if ctor is None:
                     raise Unsupported("constructor of " + cls + " not translated")
@@ -1008,7 +1012,8 @@ def exact_name(name):
 
 
 # ---- specializations of templates (the TU instantiates them explicitly, so the AST is fully resolved)
-SPEC_KINDS = {"FunctionSpec": "FunctionDecl", "Functor": "ClassTemplateSpecializationDecl", "Lambda": "FunctionDecl"}
+SPEC_KINDS = {"FunctionSpec": "FunctionDecl", "Functor": "ClassTemplateSpecializationDecl", "Lambda": "FunctionDecl",
+              "MemberSpec": "ClassTemplateSpecializationDecl"}
 
 
 def targ_is(ty):
@@ -1042,6 +1047,19 @@ def spec_cands(docs, kind, pred):
     """candidates of a SPEC_KINDS job: specializations at top level (explicit instantiations) and inside their template
     declaration, defined ones only; "Lambda v" continues to the `operator()` of the closure bound to the local `v`"""
     akind = SPEC_KINDS[kind.split()[0]]
+    if kind.split()[0] == "MemberSpec":
+        # v3 "MemberSpec m": the specializations of the member function template `m` inside the specializations of a class
+        # template (implicit instantiations live inside the ClassTemplateDecl); `pred(class specialization, method)`
+        meth, classes, out = kind.split()[1], [], []
+        for d in docs:
+            classes += [c for c in [d] + d.get("inner", []) if c.get("kind") == akind]
+        for c in classes:
+            for ft in c.get("inner", []):
+                if ft.get("kind") == "FunctionTemplateDecl" and ft.get("name") == meth:
+                    out += [m for m in ft.get("inner", []) if m.get("kind") == "CXXMethodDecl" and pred(c, m)
+                            and any(x.get("kind") == "TemplateArgument" for x in m.get("inner", []))
+                            and any(x.get("kind") == "CompoundStmt" for x in m.get("inner", []))]
+        return out
     pool = list(docs)
     for d in docs:
         if d.get("kind", "").endswith("TemplateDecl"):
@@ -1193,6 +1211,45 @@ BITS_JOBS = _bits_jobs()
 BITS_BOOL = set()
 
 
+# ---- C12: the four `duration_cast_impl<ToDuration, CF, CR, CF::num == 1, CF::den == 1>::cast` bodies for every ordered
+# pair of the harness' representation types.  The instantiations come from calls `duration_cast<To>(from)` in the TU with
+# periods that select the specialization; `CF::num` / `CF::den` are left SYMBOLIC (Lean parameters `num`, `den`), so one
+# generated function stands for every conversion factor of that shape.  CR = common_type_t<to_rep, Rep, intmax_t> = long.
+DUR_REPS = [("i16", "short"), ("i32", "int"), ("i64", "long"), ("u32", "unsigned int")]
+# shape -> (From period, To period, NumIsOne, DenIsOne)
+DUR_SHAPES = {"nd": ("etl::ratio<3, 1>", "etl::ratio<2, 1>", 0, 0), "d": ("etl::ratio<1, 1000>", "etl::ratio<1, 1>", 1, 0),
+              "n": ("etl::ratio<1, 1>", "etl::ratio<1, 1000>", 0, 1), "id": ("etl::ratio<1, 1>", "etl::ratio<1, 1>", 1, 1)}
+DURCAST_TU = "#include <etl/chrono.hpp>\nnamespace verif_inst {\nusing namespace etl::chrono;\n" + "".join(
+    "inline auto c_%s_%s_%s(duration<%s, %s> d) { return duration_cast<duration<%s, %s>>(d); }\n"
+    % (sh, ts, fs, ft, DUR_SHAPES[sh][0], tt, DUR_SHAPES[sh][1])
+    for sh in DUR_SHAPES for ts, tt in DUR_REPS for fs, ft in DUR_REPS) + "}\n"
+
+
+def durcast_pred(to_rep, from_rep, num1, den1):
+    def pred(c, m):
+        ca = [x for x in c.get("inner", []) if x["kind"] == "TemplateArgument"]
+        ma = [x for x in m.get("inner", []) if x["kind"] == "TemplateArgument"]
+        if len(ca) != 5 or len(ma) != 2:
+            return False
+        tq = ca[0].get("type", {}).get("qualType", "")
+        mt = re.match(r"(?:etl::chrono::)?duration<([^,<>]+)[,>]", tq)
+        return (bool(mt) and mt.group(1).strip() == to_rep and ca[2].get("type", {}).get("qualType") == "long"
+                and (ca[3].get("value") != 0) == bool(num1) and (ca[4].get("value") != 0) == bool(den1)      # `true` is dumped as -1
+                and ma[0].get("type", {}).get("qualType") == from_rep)
+    return pred
+
+
+DURCAST_JOBS = [("cast_%s_%s_%s" % (sh, ts, fs), "etl::chrono::detail::duration_cast_impl", "MemberSpec cast",
+                 durcast_pred(tt, ft, DUR_SHAPES[sh][2], DUR_SHAPES[sh][3]), None, [])
+                for sh in DUR_SHAPES for ts, tt in DUR_REPS for fs, ft in DUR_REPS]
+
+
+def translate_durcast(repo, out):
+    return translate(repo, out, DURCAST_JOBS, DURCAST_TU, "Tetl.C12.Gen", "include/etl/_chrono/duration_cast.hpp",
+                     whole_tu=True, imports=["Tetl.CSemBits"],
+                     fn_opts={"symbolic": {"num": "num", "den": "den"}, "rep_classes": True})
+
+
 def translate_bits(repo, out):
     return translate(repo, out, BITS_JOBS, BITS_TU, "Tetl.C14.Gen", "include/etl/_bit, _numeric, _utility", whole_tu=True,
                      clang_flags=["-Wno-c++11-narrowing"], imports=["Tetl.CSemBits", "Tetl.C14.GenExt"],
@@ -1204,6 +1261,8 @@ if __name__ == "__main__":
     out = sys.argv[2] if len(sys.argv) > 2 else "/dev/stdout"
     if len(sys.argv) > 3 and sys.argv[3] == "bits":
         info = translate_bits(repo, out)
+    elif len(sys.argv) > 3 and sys.argv[3] == "durcast":
+        info = translate_durcast(repo, out)
     elif len(sys.argv) > 3 and sys.argv[3] == "toint":
         info = translate(repo, out, TOINT_JOBS, TOINT_TU, "Tetl.C10.Gen", "include/etl/_strings/to_integer.hpp")
     elif len(sys.argv) > 3 and sys.argv[3] == "cwctype":
